@@ -291,8 +291,8 @@ def throttle(
         def wrapper(*args, **kwargs):
             while True:
                 with cache.transact(retry=True):
-                    last, tally = cache.get(key)
                     now = time_func()
+                    last, tally = cache.get(key, default=(now, count))
                     tally += (now - last) * rate
                     delay = 0
 
